@@ -80,6 +80,13 @@ pub(super) mod schema {
     }
 }
 
+/// Verification hooks: the WebRTC message framing and decoder (re-exports only).
+#[cfg(feature = "verif")]
+pub mod verif {
+    pub use super::schema::webrtc::{message::Flag as SchemaFlag, Message as SchemaMessage};
+    pub use super::util::{extract_framed_message, WebRtcMessage, MAX_FRAME_SIZE};
+}
+
 /// Logging target for the file.
 const LOG_TARGET: &str = "litep2p::webrtc";
 
